@@ -263,7 +263,38 @@ class EstCapture:
         return False
 
 
+class AdagradZeroSpy:
+    """notes whether Adagrad.update_step was called with an exactly zero gradient while its accumulator _gnormsum was 0 (first step of
+    a solve / after a failed epoch / only zero gradients so far): the input class of finding C13-G1 (step = 1/sqrt(0) = inf,
+    inf * 0 = nan in every factor entry)"""
+
+    def __enter__(self):
+        import numpy as np
+        from pyttb.gcp import optimizers
+        self.cls, self.orig, self.hit = optimizers.Adagrad, optimizers.Adagrad.update_step, False
+        spy = self
+
+        def wrapped(this, model, gradient, lower_bound):
+            if this._gnormsum == 0 and all(not np.any(g) for g in gradient):
+                spy.hit = True
+            return spy.orig(this, model, gradient, lower_bound)
+        optimizers.Adagrad.update_step = wrapped
+        return self
+
+    def __exit__(self, *exc):
+        self.cls.update_step = self.orig
+        return False
+
+
 def run_solve(a):
+    with AdagradZeroSpy() as zspy:
+        o = _run_solve(a, zspy)
+    if zspy.hit:
+        o.setdefault("meta", {})["adagrad_zero"] = True
+    return o
+
+
+def _run_solve(a, zspy):
     import numpy as np
     X, M0, smp = _mk_problem(a)
     fh, gh, lb = _objective(a)
@@ -284,6 +315,10 @@ def run_solve(a):
         else:
             result, info = opt.solve(M0, X, fh, gh, lb, smp)
     ests = [v for _, v in cap.rec]
+    if zspy.hit and (any(not math.isfinite(v) for v in ests) or any(not np.all(np.isfinite(f)) for f in result.factor_matrices)
+                     or any(not np.all(np.isfinite(f)) for fm, _ in cap.rec for f in fm)):          # ... or a model held at an epoch boundary
+        # NOT a diverging run: Adagrad turned the model into nan on an exactly zero gradient (finding C13-G1)
+        return {"nonfinite": True, "ests": [str(v) for v in ests], "trace": [str(v) for v in info["f_est_trace"]]}
     if any(not math.isfinite(v) for v in ests):
         return {"skip": "non-finite estimate"}
     cands = [k for k, (fm, _) in enumerate(cap.rec) if all(np.array_equal(x, y) for x, y in zip(fm, result.factor_matrices))]
@@ -305,6 +340,14 @@ def _flat(result, info):
 
 
 def run_reuse(a):
+    with AdagradZeroSpy() as zspy:
+        o = _run_reuse(a)
+    if zspy.hit:
+        o.setdefault("meta", {})["adagrad_zero"] = True
+    return o
+
+
+def _run_reuse(a):
     import numpy as np
     reused, fresh = [], []
     shared = _mk_opt(a)
@@ -834,6 +877,9 @@ def oracle(op, a, o):
         if a["cz"] and abs(sum(ws[cn:]) - ztot) > Fraction(1, 10 ** 6):
             return f"zero weights total {float(sum(ws[cn:]))} for {ztot} entries"
         return None
+    if op in ("solve", "solve_trace") and o.get("nonfinite"):
+        return ("the solve returned a model / estimates that are not finite (trace " + ", ".join(o["trace"]) + "): nan factor entries do not respect "
+                "the lower bound and the result is not the best model seen at an epoch boundary")
     if op in ("solve", "solve_trace"):
         ests = [Fraction(x) for x in o["ests"]]
         trace = [Fraction(x) for x in o["trace"]]
@@ -978,7 +1024,27 @@ def lb_witness_args(opts):
 
 # only the OPEN findings are replayed as witnesses; the inputs of the repaired ones (A-35, A-36, A-37, A-48, C13-S2, C13-L1, C13-L2)
 # are fixed regression cases in c13.gen_cases
-WITNESSES = {"C13-S3": _w_empty, "A-47": _w_a47, "C13-S1": _w_short}
+def _w_adagrad_zero():
+    """gcp_opt with Adagrad started AT the exact solution (data = full(model), integer factors: every sampled gradient is exactly 0)"""
+    import logging
+    import numpy as np
+    import pyttb as ttb
+    from pyttb.gcp.handles import Objectives
+    from pyttb.gcp.optimizers import Adagrad
+    logging.disable(logging.CRITICAL)
+    try:
+        M = ttb.ktensor([np.array([[1.0], [2.0]]), np.array([[1.0], [3.0], [2.0]])])
+        np.random.seed(0)
+        res, _, info = ttb.gcp_opt(M.full(), 1, Objectives.GAUSSIAN, Adagrad(max_iters=2, epoch_iters=2, printitn=0), init=M.copy(), printitn=0)
+    finally:
+        logging.disable(logging.NOTSET)
+    if any(not np.all(np.isfinite(f)) for f in res.factor_matrices):
+        return (f"gcp_opt(full(M), 1, GAUSSIAN, Adagrad(max_iters=2, epoch_iters=2), init=M) with M = [1,2] o [1,3,2]: returned factors "
+                f"{[f.ravel().tolist() for f in res.factor_matrices]}, trace {info['f_est_trace'].tolist()}")
+    return None
+
+
+WITNESSES = {"C13-S3": _w_empty, "A-47": _w_a47, "C13-S1": _w_short, "C13-G1": _w_adagrad_zero}
 
 
 # --------------------------------------------------------------------------------------- GCPSampler configuration table
